@@ -67,6 +67,7 @@ type routed struct {
 	famStart int64
 	exp      *Expect
 	stale    bool // IsOutOfTimeRange was already set on the freshly parsed (pooled) batch
+	preEpoch bool // the batch also carries a row with a timestamp in [-999,-1] ms (just below the unix epoch)
 	seenIter int
 }
 
@@ -136,8 +137,12 @@ func (rc *routeCtx) genScenario(id string) *scenario {
 }
 
 // timestamp picks a timestamp relative to now: in window (jittered around an anchor) or deliberately outside.
-func (rc *routeCtx) timestamp(sc *scenario, now int64) (ts int64, inWindow bool) {
+func (rc *routeCtx) timestamp(sc *scenario, now int64, allowPreEpoch bool) (ts int64, inWindow bool) {
 	g := rc.g
+	if allowPreEpoch && sc.Behind > 0 && g.r.Intn(12) == 0 {
+		// far outside the window: a client's "-1 = unset" style timestamp
+		return []int64{-1, -5, -999}[g.r.Intn(3)], false
+	}
 	lo, hi := -400*dayMs, 400*dayMs
 	if sc.Behind > 0 {
 		lo = -sc.Behind + marginMs
@@ -344,6 +349,7 @@ func (rc *routeCtx) genAndParse(sc *scenario, b int) ([]*routed, *metric.BrokerB
 		n = 60 + g.r.Intn(240)
 	}
 	now := time.Now().UnixMilli()
+	preEpochBatch := format != fmtLine && g.r.Intn(25) == 0
 	var rs []*routed
 	var flatIn [][]byte
 	var line strings.Builder
@@ -361,7 +367,7 @@ func (rc *routeCtx) genAndParse(sc *scenario, b int) ([]*routed, *metric.BrokerB
 		} else {
 			m = g.metric(env, opt)
 		}
-		ts, in := rc.timestamp(sc, now)
+		ts, in := rc.timestamp(sc, now, preEpochBatch)
 		if format == fmtLine {
 			ts -= ts % prec.unitMs()
 		}
@@ -405,6 +411,18 @@ func (rc *routeCtx) genAndParse(sc *scenario, b int) ([]*routed, *metric.BrokerB
 		}
 		r.Eval(1)
 		r.Nontrivial(featureKey("route", m, env, fmt.Sprintf("%s|sh=%d|fam=%s|win=%t|in=%t", format, bucketShards(sc.Shards), familyKind(sc.Smallest), sc.Behind > 0 || sc.Ahead > 0, in)))
+	}
+	hasPreEpoch := false
+	for _, x := range rs {
+		if x.m.TS < 0 && x.m.TS > -1000 {
+			hasPreEpoch = true
+		}
+	}
+	if hasPreEpoch {
+		r.Count("batches_with_a_timestamp_just_below_the_epoch", 1)
+		for _, x := range rs {
+			x.preEpoch = true
+		}
 	}
 	if b == 0 {
 		r.Sample(map[string]interface{}{"phase": "route", "scenario": sc, "format": format, "first_metric": rs[0].m, "rows": n})
@@ -552,6 +570,8 @@ func (rc *routeCtx) routeByIterators(sc *scenario, rs []*routed, batch *metric.B
 			continue
 		}
 		switch {
+		case x.seenIter == 0 && x.preEpoch:
+			r.Violation(preEpochClass, preEpochMsg("an accepted row of the batch is in no (shard, family) group"), rc.witness(sc, x, nil))
 		case x.seenIter == 0:
 			r.Violation("C16/iterator-lost-row", "an accepted row of the batch is in no (shard, family) group", rc.witness(sc, x, nil))
 		case x.seenIter > 1:
@@ -559,11 +579,27 @@ func (rc *routeCtx) routeByIterators(sc *scenario, rs []*routed, batch *metric.B
 		}
 	}
 	if total != batch.Len() {
-		r.Violation("C16/iterator-lost-or-duplicated-rows", fmt.Sprintf("iterators yielded %d rows of a batch of %d", total, batch.Len()), rc.witness(sc, rs[0], nil))
+		if rs[0].preEpoch && total < batch.Len() {
+			r.Violation(preEpochClass, preEpochMsg(fmt.Sprintf("iterators yielded %d rows of a batch of %d", total, batch.Len())), rc.witness(sc, rs[0], nil))
+		} else {
+			r.Violation("C16/iterator-lost-or-duplicated-rows", fmt.Sprintf("iterators yielded %d rows of a batch of %d", total, batch.Len()), rc.witness(sc, rs[0], nil))
+		}
 	}
 }
 
+const preEpochClass = "C16/timestamp-just-below-epoch-drops-shard-group"
+
+func preEpochMsg(detail string) string {
+	return "a row with a timestamp in [-999,-1] ms sorts first in its shard group; BrokerBatchShardFamilyIterator.HasNextFamily computes a family range " +
+		"that does not contain that timestamp (time.Unix(ts/1000) truncates towards zero), the group stays empty, HasNextFamily returns false and every other row " +
+		"of that shard in the batch is silently dropped: " + detail
+}
+
 func (rc *routeCtx) droppedInWindow(sc *scenario, x *routed, how string) {
+	if x.preEpoch {
+		rc.r.Violation(preEpochClass, preEpochMsg(fmt.Sprintf("in-window row (ts %d) dropped (%s)", x.m.TS, how)), rc.witness(sc, x, nil))
+		return
+	}
 	if x.stale && !sc.Repair {
 		rc.r.Violation("C16/pooled-batch-stale-out-of-range-flag",
 			fmt.Sprintf("in-window row (ts %d, window behind=%s ahead=%s) dropped: its slot of the pooled BrokerBatchRows still carried IsOutOfTimeRange=true from an earlier batch before EvictOutOfTimeRange ran (%s)", x.m.TS, sc.BehindStr, sc.AheadStr, how),
@@ -585,6 +621,11 @@ func (rc *routeCtx) checkPlacement(sc *scenario, x *routed, row *Row, shard int3
 		return
 	}
 	s, e := familyRange(x.m.TS, sc.Smallest)
+	if !x.inWindow {
+		// an evicted row is never written: the family it is grouped under is of no consequence
+		r.Count("evicted_row_placements_checked_shard_only", 1)
+		return
+	}
 	if familyTime != s || x.m.TS < familyTime || x.m.TS >= e {
 		r.Violation("C16/row-in-wrong-family", fmt.Sprintf("row with timestamp %d is in family %d; the %s family containing it is [%d,%d)", x.m.TS, familyTime, familyKind(sc.Smallest), s, e), rc.witness(sc, x, nil))
 		return
